@@ -337,7 +337,6 @@ RT_RELY = dict(
     rely=DISP_RELY["rely"] + [("pool_bounded", "len(self._handlers_task_pool._tasks) <= self._handlers_task_pool._max_size")],
     callee_variant="shared")
 contract(RD + "now", props=["C15"], returns="DT", ensures=[("clock", "result >= old(clock('utc'))")], modifies=[])
-contract(ED + "on_error", props=["C15"], types={"error": "Any"}, modifies=[])
 contract(RD + "_push_scheduled", props=["C15", "C14"], types={"dt": "DT"},
          requires=[("pool_wf", "tp_wf(self._handlers_task_pool)"), ("not_future", "dt <= clock('utc')")],
          ensures=[("pool_wf", "tp_wf(self._handlers_task_pool)"),
